@@ -930,7 +930,7 @@ class mulgrid(object):
 
     def get_right_justified_names(self):
         """Returns True if character part of block names are right-justified."""
-        return all([(blkname[0:3] == blkname[0:3].rjust(3)) for
+        return all([(blkname[0:3] == blkname[0:3].strip().rjust(3)) for
                     blkname in self.block_name_list])
     right_justified_names = property(get_right_justified_names)
 
